@@ -17,6 +17,8 @@ pub enum Op {
     /// FixedOutput::finalize_fixed_reset: finalises in place (no clone) and resets
     FinFixedReset(u8),
     Fin(u8),
+    /// Clone::clone_from into this instance from the other live one (a hand-written Clone can differ from clone())
+    CloneFrom(u8),
 }
 
 pub fn lens<H: HK>() -> Vec<usize> {
@@ -33,6 +35,7 @@ fn op_json<H: HK>(o: &Op) -> Value {
         Op::FinReset(i) => json!({"op":"finalize_reset","inst":i}),
         Op::FinFixedReset(i) => json!({"op":"finalize_fixed_reset","inst":i}),
         Op::Fin(i) => json!({"op":"finalize","inst":i}),
+        Op::CloneFrom(i) => json!({"op":"clone_from","inst":i}),
     }
 }
 
@@ -130,6 +133,12 @@ fn exec<H: HK>(or: &Oracle<H>, ops: &[Op], final_check: bool) -> Result<u32, (St
                 checks += 1;
                 check("finalize", &got, &it.m)?;
             }
+            Op::CloneFrom(i) => {
+                let (a, b) = inst.split_at_mut(1);
+                let (dst, src) = if i == 0 { (a[0].as_mut().unwrap(), b[0].as_ref().unwrap()) } else { (b[0].as_mut().unwrap(), a[0].as_ref().unwrap()) };
+                dst.d.clone_from(&src.d);
+                dst.m = src.m; // from here on the destination is a copy: same byte line, same absorbed bytes
+            }
         }
     }
     if final_check {
@@ -164,6 +173,10 @@ fn menu(live: [bool; 2], nl: usize, have_clone_budget: bool) -> Vec<Op> {
             v.push(Op::FinFixedReset(i));
             v.push(Op::Fin(i));
         }
+    }
+    if live[0] && live[1] {
+        v.push(Op::CloneFrom(0));
+        v.push(Op::CloneFrom(1));
     }
     v
 }
@@ -260,7 +273,7 @@ fn run_one<H: HK>(rep: &mut Report, depth: usize, two_piece_max: usize) {
 pub fn run(tier: &str, config: &str) -> Report {
     let mut rep = Report::new("C08", tier, config);
     let depth: usize = std::env::var("VH_DEPTH").ok().and_then(|s| s.parse().ok()).unwrap_or(if tier == "thorough" { 6 } else { 4 });
-    rep.rule = format!("every valid history of {} operations over {{update(inst, l): l in {{0,1,B-1,B,B+1,2B,2B+1,3B+5}}, clone (once; afterwards both instances are driven), reset, Digest::finalize_reset, FixedOutput::finalize_fixed_reset (in place), finalize}} with <= 2 live instances, executed from scratch on the real hasher (no state merging); the clone absorbs a different byte line after the fork point; at every finalize*/end of history the digest is compared with the one-shot digest of the same implementation and with vref; plus every two-piece split (a,b) with a+b <= 3B+1. `states` = distinct model states (byte line, fork point, length) at which digests were compared + states of the keyed phase, `transitions` = operations executed. Keyed phase: explicit-state BFS on the real hasher objects to a fixpoint inside a length window (key = model state + behavioural fingerprint: digest of a clone and digest of a clone after B+1 more bytes): (1) one instance, update(l) for every l in 0..=B+1 and 2B-1,2B,2B+1,3B+5, reset, finalize_reset, finalize_fixed_reset, window 3B+5; (2) clone allowed, two live instances, block-relative lengths, every operation on either instance; oracle on every created state (and on the untouched other instance).", depth);
+    rep.rule = format!("every valid history of {} operations over {{update(inst, l): l in {{0,1,B-1,B,B+1,2B,2B+1,3B+5}}, clone (once; afterwards both instances are driven), clone_from in either direction between two live instances, reset, Digest::finalize_reset, FixedOutput::finalize_fixed_reset (in place), finalize}} with <= 2 live instances, executed from scratch on the real hasher (no state merging); the clone absorbs a different byte line after the fork point; at every finalize*/end of history the digest is compared with the one-shot digest of the same implementation and with vref; plus every two-piece split (a,b) with a+b <= 3B+1. `states` = distinct model states (byte line, fork point, length) at which digests were compared + states of the keyed phase, `transitions` = operations executed. Keyed phase: explicit-state BFS on the real hasher objects to a fixpoint inside a length window (key = model state + behavioural fingerprint: digest of a clone and digest of a clone after B+1 more bytes): (1) one instance, update(l) for every l in 0..=B+1 and 2B-1,2B,2B+1,3B+5, reset, finalize_reset, finalize_fixed_reset, window 3B+5; (2) clone allowed, two live instances, block-relative lengths, every operation on either instance; oracle on every created state (and on the untouched other instance).", depth);
     macro_rules! go { ($k:ty) => { run_one::<$k>(&mut rep, depth, 3 * <$k as HK>::BLOCK + 1); crate::c08k::run_one::<$k>(&mut rep, tier == "thorough"); }; }
     go!(KBlake224); go!(KBlake256); go!(KBlake384); go!(KBlake512);
     go!(KGroestl224); go!(KGroestl256); go!(KGroestl384); go!(KGroestl512);
@@ -294,6 +307,7 @@ fn replay_one<H: HK>(v: &Value) -> bool {
             "reset" => Op::Reset(i),
             "finalize_reset" => Op::FinReset(i),
             "finalize_fixed_reset" => Op::FinFixedReset(i),
+            "clone_from" => Op::CloneFrom(i),
             _ => Op::Fin(i),
         }
     }).collect();
